@@ -148,3 +148,18 @@ Proof.
   - apply matchb_spec in E1. apply E in E1. apply matchb_spec in E1. congruence.
   - apply matchb_spec in E2. apply E in E2. apply matchb_spec in E2. congruence.
 Qed.
+
+(* alternation at the top of a regex is the disjunction of the matchers (RegexSet::is_match) *)
+Theorem matchb_alt (r s : rex cclass) w : matchb (Alt r s) w = orb (matchb r w) (matchb s w).
+Proof.
+  assert (E : langc (Alt r s) w <-> langc r w \/ langc s w) by reflexivity.
+  destruct (matchb (Alt r s) w) eqn:E0; destruct (matchb r w) eqn:E1; destruct (matchb s w) eqn:E2;
+    try reflexivity; exfalso.
+  - apply matchb_spec in E0. apply E in E0. destruct E0 as [H|H]; apply matchb_spec in H; congruence.
+  - assert (H : langc (Alt r s) w) by (apply E; left; apply matchb_spec; exact E1).
+    apply matchb_spec in H. congruence.
+  - assert (H : langc (Alt r s) w) by (apply E; left; apply matchb_spec; exact E1).
+    apply matchb_spec in H. congruence.
+  - assert (H : langc (Alt r s) w) by (apply E; right; apply matchb_spec; exact E2).
+    apply matchb_spec in H. congruence.
+Qed.
